@@ -35,18 +35,27 @@ ValueProp(a) == CASE a.act \in {"New", "NewLike", "Store", "SetItem"} -> "C01" [
                   [] a.act \in {"BitOp", "BitMask"} -> "C13" [] a.act = "ShiftExpand" -> "C14" [] a.act = "Reduce" -> "C15"
                   [] a.act = "BinOpConst" -> "C08" [] a.act = "IOp" -> "C07" [] a.act = "SetRaw" -> "C01"
                   [] OTHER -> "C20"
-\* compare one object; returns TRUE iff it agrees (prints the first differing field otherwise)
-AgreeObj(e, x, exp, got, isTarget) ==
+\* Where the model encodes a NAMED DEVIATION that no property states, the validator accepts the alternative a maintainer could
+\* legitimately choose (soundness rule 1: a check compares only what its property states):
+\*   - the Config of the result of -x, x << n, expanding shifts and reductions: a default Config (today) or a copy of the operand's;
+\*   - the inaccuracy flag of -x and of shift results: not inherited (today) or inherited from the operand;
+\*   - the flags of ~x, x >> n (trunc), x & y, x & mask: the operand's (a deep copy, today) or those of a fresh object.
+CfgFree == {"Neg", "LShiftKeep", "ShiftExpand", "Reduce"}
+InaccFree == {"Neg", "LShiftKeep", "ShiftExpand"}
+FlagsFree == {"RShiftKeep", "Invert", "BitOp", "BitMask"}
+\* compare one object; returns TRUE iff it agrees (prints the first differing field otherwise); src = the operand's record before the call
+AgreeObj(e, x, exp, got, isTarget, src) ==
    LET i == ObjIdx(x) IN
    IF exp = NullRec \/ got = NullRec THEN Chk(exp = got, e, i, "C20", IF isTarget THEN "target.exists" ELSE "other.exists")
-   ELSE LET g == Proj(got) IN
+   ELSE LET g == Proj(got)  act == e.a.act  hasSrc == src # NullRec IN
         IF isTarget
         THEN /\ Chk(g.fmt = exp.fmt, e, i, ValueProp(e.a), "target.format")
              /\ Chk(g.codes = exp.codes, e, i, ValueProp(e.a), "target.codes")
-             /\ Chk(g.cfg = exp.cfg, e, i, "C20", "target.config")
-             /\ Chk(g.st.o = exp.st.o, e, i, "C04", "target.flag.overflow")
-             /\ Chk(g.st.u = exp.st.u, e, i, "C04", "target.flag.underflow")
-             /\ Chk(g.st.i = exp.st.i, e, i, "C04", "target.flag.inaccuracy")
+             /\ Chk(g.cfg = exp.cfg \/ (act \in CfgFree /\ hasSrc /\ g.cfg = src.cfg), e, i, "C20", "target.config")
+             /\ Chk(g.st.o = exp.st.o \/ (act \in FlagsFree /\ ~g.st.o), e, i, "C04", "target.flag.overflow")
+             /\ Chk(g.st.u = exp.st.u \/ (act \in FlagsFree /\ ~g.st.u), e, i, "C04", "target.flag.underflow")
+             /\ Chk(g.st.i = exp.st.i \/ (act \in FlagsFree /\ ~g.st.i) \/ (act \in InaccFree /\ hasSrc /\ g.st.i = (exp.st.i \/ src.st.i)),
+                    e, i, "C04", "target.flag.inaccuracy")
         ELSE \* an object the call was not about: any change is interference (or a missing write-through)
              /\ Chk(g.fmt = exp.fmt, e, i, "C20", "other.format")
              /\ Chk(g.codes = exp.codes, e, i, "C20", "other.codes")
@@ -68,8 +77,10 @@ WellFormedObs(e, x, got) ==
        \* the status record stays complete (reset() clears three flags and leaves the rest usable)
        /\ Chk(got.stkeys = <<"extended_prec", "inaccuracy", "overflow", "underflow">>, e, i, "C04", "status-record"))
 Judge(e, S1) ==
-   LET tgt == Sys!Target(e.a) IN
-   /\ \A x \in ObjS : AgreeObj(e, x, S1.objs[x], e.obs[x], x = tgt)
+   LET tgt == Sys!Target(e.a)
+       S0 == IF e.i = 1 THEN Sys!InitS ELSE st
+       src == IF e.a.act \in (CfgFree \cup InaccFree \cup FlagsFree) THEN S0.objs[e.a.x] ELSE NullRec IN
+   /\ \A x \in ObjS : AgreeObj(e, x, S1.objs[x], e.obs[x], x = tgt, src)
    /\ \A x \in ObjS : WellFormedObs(e, x, e.obs[x])
    /\ (e.a.act \in {"Store", "SetItem", "SetItemFxp", "SetRaw"} => Chk(e.cb = Sys!CbStep(IF e.i = 1 THEN Sys!InitS ELSE st, e.a), e, ObjIdx(tgt), "C04", "callbacks"))
    /\ (e.a.act = "SetCfgBad" => Chk(e.raised, e, ObjIdx(tgt), "C20", "invalid-config-accepted"))
